@@ -32,6 +32,16 @@ MINTER_RULE = ("validated emission configurations (1-5 periods of no-minting / l
                "the Coq model; a separate malformed stream compares only the validation decision; non-trivial = something was minted; "
                "distinct = distinct (configuration, final time)")
 
+VGENESIS_RULE = ("vesting genesis states generated from (VERIF_SEED, index): 1-3 vesting types, 0-4 owners with 0-3 pools (sent / withdrawn histories, "
+                 "emptied pools), 0-3 lineage traces; 40% perturbed in one of 16 ways Validate looks at (duplicate / nameless / malformed vesting type, unknown unit, "
+                 "negative period, pool amounts out of bounds, nameless / duplicate pool, unknown vesting type, duplicate / malformed owner, duplicate / too large trace id, "
+                 "malformed trace address, malformed denomination); the vesting module account's balance is set to exactly, more than or less than what the pools lock, "
+                 "incl. no owner entries with a funded module account; the real GenesisState.Validate and cfevesting.InitGenesis run on an emptied store, and the "
+                 "store read back through the keeper is compared with the Coq model; accepted valid genesis: the registered invariants, export, re-import, re-export")
+
+def vgenesis(nq, nt):
+    return {"kind": "vgenesis", "profile": "", "n_quick": nq, "n_thorough": nt, "per_shard": 150}
+
 def minter(nq, nt):
     return {"kind": "minter", "profile": "", "n_quick": nq, "n_thorough": nt, "per_shard": 10}
 
@@ -121,11 +131,12 @@ PROPS = {
     "C12": {
         "title": "Genesis export/import preserves state and subsequent behaviour",
         "model": "Genesis.v: minter / distributor / vesting-type / signature export and import",
-        "runs": [app(160, 5000)],
+        "runs": [app(160, 5000), vgenesis(300, 10000)],
         "preds": ["C12.", "C10.block_processing_no_panic_after_import"],
-        "rule": APP_RULE,
-        "partial": ["the cfevesting pools / traces part of the genesis and the SDK modules' own export/import are covered by the application-level "
-                    "comparison only (re-export equality and identical behaviour of the restored application), not by a Coq theorem"],
+        "rule": APP_RULE + " | " + VGENESIS_RULE,
+        "partial": ["the lineage traces and vesting types of the vesting genesis and the SDK modules' own export/import are covered by the "
+                    "comparisons on the implementation only (module-level export / re-import / re-export equality, application-level re-export equality "
+                    "and identical behaviour of the restored application), not by a Coq theorem; the pool store is"],
         "level_text": "Coq theorems: importing the exported minter genesis yields exactly the same parameters, state and history (history shape is an "
                       "invariant of BeginBlock), hence identical later blocks; the same for the distributor after fix F4 (old import: computed panic "
                       "witness); vesting-type periods survive the (unit, value) encoding exactly for whole seconds and imported periods are always whole "
@@ -264,15 +275,17 @@ PROPS = {
     },
     "C05": {
         "title": "Vesting module account is always exactly backed by its pools",
-        "model": "Vest.v: create_pool, withdraw_all, send_to_vesting_account, create_vesting_account, split/move, step, run",
-        "runs": [vest("pools", 120, 4000), vest("", 60, 2000)],
+        "model": "Vest.v: create_pool, withdraw_all, send_to_vesting_account, create_vesting_account, split/move, step, run; VestGenesis.v: vgenesis_valid, vgenesis_init",
+        "runs": [vest("pools", 120, 4000), vest("", 60, 2000), vgenesis(300, 10000)],
         "preds": ["C05."],
-        "rule": VEST_RULE,
+        "rule": VEST_RULE + " | " + VGENESIS_RULE,
         "level_text": "Coq theorems over the executable vesting-world model: Solvent (module balance = sum over pools of locked-sent-withdrawn, "
                       "every pool within bounds) is an invariant of every history of vesting messages by any signers with any arguments and "
                       "arbitrary time steps (induction over the operation list); a rejected message returns the identical world. The model is "
                       "compared with the real message server after every operation of generated histories, and the three registered invariants "
-                      "are evaluated through the real functions.",
+                      "are evaluated through the real functions. Genesis: InitGenesis refuses every module balance different from what the listed "
+                      "pools lock (also with no pools listed), and a validated, accepted genesis stores pools that back the module account exactly; "
+                      "the real Validate / InitGenesis run on generated genesis states with equal, larger and smaller module balances.",
     },
     "C06": {
         "title": "Pool time-lock",
